@@ -28,7 +28,9 @@ HANDLES = ["val", "raw", "asnumpy", "val.asnumpy", "val.val", "val_slice", "val_
 OPS = ["makeOp", "Adder", "GaussianEnergy", "ScalingLike"]
 TOUCHES = ["asnumpy", "val", "copy", "view", "at", "lock", "readonly", "np_asarray", "getitem", "astype", "reshape"]
 WRITES = ["setitem", "setslice", "iadd", "np_add_out", "fill", "sort", "copyto", "imul_scalar", "np_multiply_out_any",
-          "put", "itemset_via_flat"]
+          "put", "itemset_via_flat",
+          # numpy functions / ufunc methods applied to the wrapper itself (dispatched through __array_function__ / __array_ufunc__)
+          "np_copyto_direct", "np_putmask_direct", "ufunc_at", "np_place_direct"]
 
 
 # ways to obtain a NEW array object from a source array / wrapper / handle of an existing field, from which
@@ -452,10 +454,21 @@ def step_write(w, how, j, seed):
         elif how == "put":
             a = obj.val if isany else obj
             a.put([0], [val]) if a.ndim else a.fill(val)
+        elif how == "np_copyto_direct":
+            np.copyto(obj, val)
+        elif how == "np_putmask_direct":
+            np.putmask(obj, np.ones(obj.shape, dtype=bool), val)
+        elif how == "np_place_direct":
+            np.place(obj, np.ones(obj.shape, dtype=bool), [val])
+        elif how == "ufunc_at":
+            if obj.ndim == 0:
+                np.add(obj, val, out=obj)
+            else:
+                np.add.at(obj, (0,) * obj.ndim, val)
         else:
             a = obj.val if isany else obj
             a.flat[0] = val
-    except (ValueError, TypeError, RuntimeError) as e:
+    except (ValueError, TypeError, RuntimeError, NotImplementedError, AttributeError) as e:
         raised = type(e).__name__
     if raised:
         w.stats["writes_raised"] += 1
@@ -463,7 +476,7 @@ def step_write(w, how, j, seed):
         w.stats["writes_succeeded_on_copy"] += 1
     else:
         w.stats["writes_succeeded_elsewhere"] += 1
-    return {"how": how, "target": t["label"], "raised": raised}
+    return {"how": how, "target": t["label"], "raised": raised, "target_type": "AnyArray" if isany else "ndarray"}
 
 
 def check(w, last):
@@ -472,14 +485,18 @@ def check(w, last):
         if not same(read(ent["f"]), ent["snap"]):
             via = f"{last['target']}:{last['how']}" if last else "no-write"
             raise Violation({"oracle": "field-changed", "ctor": ent["ctor"].split(".")[0],
-                             "via": via.split("[")[0] + ("" if "[" not in via else via[via.index("]") + 1:])},
+                             "via": via.split("[")[0] + ("" if "[" not in via else via[via.index("]") + 1:]),
+                             "write": last["how"] if last else None,
+                             "target_type": last.get("target_type") if last else None},
                             f"field {ent['label']} changed after write {last}")
     for o in w.ops:
         res = o["op"](o["probe"])
         got = np.array(res.val.val)
         if got.shape != np.shape(o["ref"]) or not np.allclose(got, o["ref"], rtol=1e-12, atol=1e-12):
             raise Violation({"oracle": "operator-changed", "op": o["label"].split("(")[0],
-                             "via": f"{last['target']}:{last['how']}" if last else "no-write"},
+                             "via": f"{last['target']}:{last['how']}" if last else "no-write",
+                             "write": last["how"] if last else None,
+                             "target_type": last.get("target_type") if last else None},
                             f"operator {o['label']} changed meaning after write {last}")
 
 
